@@ -817,6 +817,7 @@ func execCase(c core.Case) (out []string) {
 		return w
 	}
 	w := newWorld(0)
+	lc := &lctx{}
 	noteMsgs := func(ms []msgT) {
 		for _, m := range ms {
 			if m.isSnap {
@@ -841,6 +842,10 @@ func execCase(c core.Case) (out []string) {
 			} else {
 				out = append(out, g())
 			}
+		}
+		if strings.HasPrefix(f[0], "l.") {
+			out = append(out, lc.op(f, m))
+			continue
 		}
 		switch f[0] {
 		case "q.new":
